@@ -649,6 +649,7 @@ fn branches_are(n: &Node, exp: &[([u8; 2], u64)]) -> bool {
 /// root branch page 3 (run of 1 + `ov` pages) over leaf pages 6 {a0,a1} and 7 {c0,c1}; the transaction has removed
 /// all but `keep` entries of leaf `which`; then merge_nodes
 fn merge_two_leaf_case(ov: u64, which: usize, keep: usize, symbolic: bool) {
+    crate::cursor::jv::word_stores(!symbolic);
     let (a, c): ([[u8; 2]; 2], [[u8; 2]; 2]) = if symbolic { (kani::any(), kani::any()) } else { ([[1, 0], [2, 0]], [[3, 0], [4, 0]]) };
     kani::assume(a[0] < a[1] && a[1] < c[0] && c[0] < c[1]);
     put_leaf_page(6, 0, &[Ent { t: 0, k: &a[0], v: &[7] }, Ent { t: 0, k: &a[1], v: &[8] }]);
@@ -704,19 +705,19 @@ fn merge_two_leaf_case(ov: u64, which: usize, keep: usize, symbolic: bool) {
     std::mem::forget(ib);
 }
 
-// @ob props=C01,C05,C10 tier=quick cap=700 mem=8 fns=InnerBucket::merge_nodes,InnerBucket::node,Node::from_page,Node::needs_merging,NodeData::merge,Node::free_page,TxFreelist::free,Node::insert_child,Node::delete bound="branch root (1 page) over two leaf pages with 2 entries each, concrete keys (one execution, all checks on); the FIRST leaf is left with one entry; one run of merge_nodes" unwind=5
+// @ob props=C01,C05,C10 tier=parked cap=3000 mem=12 fns=InnerBucket::merge_nodes,InnerBucket::node,Node::from_page,Node::needs_merging,NodeData::merge,Node::free_page,TxFreelist::free,Node::insert_child,Node::delete bound="branch root (1 page) over two leaf pages with 2 entries each, concrete keys (one execution, all checks on); the FIRST leaf is left with one entry; one run of merge_nodes" unwind=5
 #[kani::proof]
 #[kani::unwind(5)]
 fn bucket_merge_first_leaf_into_right() {
     merge_two_leaf_case(0, 0, 1, false);
 }
-// @ob props=C01,C05,C10 tier=quick cap=700 mem=8 fns=InnerBucket::merge_nodes,InnerBucket::node,Node::from_page,Node::needs_merging,NodeData::merge,Node::free_page,TxFreelist::free,Node::insert_child,Node::delete bound="same tree; the SECOND leaf is left with one entry (left sibling takes it); one run of merge_nodes" unwind=5
+// @ob props=C01,C05,C10 tier=parked cap=3000 mem=12 fns=InnerBucket::merge_nodes,InnerBucket::node,Node::from_page,Node::needs_merging,NodeData::merge,Node::free_page,TxFreelist::free,Node::insert_child,Node::delete bound="same tree; the SECOND leaf is left with one entry (left sibling takes it); one run of merge_nodes" unwind=5
 #[kani::proof]
 #[kani::unwind(5)]
 fn bucket_merge_second_leaf_into_left() {
     merge_two_leaf_case(0, 1, 1, false);
 }
-// @ob props=C01,C05,C10 tier=quick cap=700 mem=8 fns=InnerBucket::merge_nodes,InnerBucket::node,Node::from_page,Node::needs_merging,Node::free_page,TxFreelist::free bound="same tree with 4 symbolic ascending 2-byte keys, root run of TWO pages (overflow 1); the first leaf is emptied completely; one run of merge_nodes" unwind=5
+// @ob props=C05,C10 tier=quick cap=700 mem=6 fns=InnerBucket::merge_nodes,InnerBucket::node,Node::from_page,Node::needs_merging,Node::free_page,TxFreelist::free bound="same tree with 4 symbolic ascending 2-byte keys, root run of TWO pages (overflow 1); the first leaf is emptied completely; one run of merge_nodes" unwind=5
 #[kani::proof]
 #[kani::unwind(5)]
 fn bucket_merge_emptied_leaf_multi_page_root() {
@@ -727,6 +728,7 @@ fn bucket_merge_emptied_leaf_multi_page_root() {
 /// removed one entry of leaf 6; merge_nodes must fold leaf 6 into 7, then inner 4 into inner 5 TOGETHER WITH the
 /// materialised (modified) leaf node below it, then collapse the root
 fn merge_three_level_case(symbolic: bool) {
+    crate::cursor::jv::word_stores(!symbolic);
     let k: [[u8; 2]; 8] = if symbolic { kani::any() } else { [[1, 0], [2, 0], [3, 0], [4, 0], [5, 0], [6, 0], [7, 0], [8, 0]] };
     kani::assume(k[0] < k[1] && k[1] < k[2] && k[2] < k[3] && k[3] < k[4] && k[4] < k[5] && k[5] < k[6] && k[6] < k[7]);
     put_leaf_page(6, 0, &[Ent { t: 0, k: &k[0], v: &[7] }, Ent { t: 0, k: &k[1], v: &[7] }]);
@@ -757,7 +759,7 @@ fn merge_three_level_case(symbolic: bool) {
         let inner5 = ib.nodes[4].borrow();
         assert!(!leaf7.deleted && leaf7.page_id == 7 && leaf_is(&leaf7, &[k[0], k[2], k[3]]), "leaf 7 took the entry left in leaf 6");
         assert!(!inner5.deleted && inner5.page_id == 5);
-        assert!(branches_are(&inner5, &[(k[2], 7), (k[4], 8), (k[6], 9)]), "inner branch 5 took the entry of the dissolved inner branch 4");
+        assert!(branches_are(&inner5, &[(k[0], 7), (k[4], 8), (k[6], 9)]), "JV-C05-STALE-SEPARATOR: inner branch 5 took the entry of the dissolved inner branch 4, under the first key leaf 7 now has");
         // the modified leaf node must stay attached to a live node, or the commit would never write it
         assert!(leaf7.parent == Some(4), "JV-C01-MERGE-CHILDREN: a dissolved branch hands its materialised children to the sibling");
         assert!(inner5.children.len() == 1 && inner5.children[0] == 3, "JV-C01-MERGE-CHILDREN: the sibling now owns the modified child node");
@@ -772,9 +774,164 @@ fn merge_three_level_case(symbolic: bool) {
     std::mem::forget(ib);
 }
 
-// @ob props=C01,C05 tier=thorough cap=3000 mem=12 fns=InnerBucket::merge_nodes,InnerBucket::node,Node::from_page,Node::needs_merging,NodeData::merge,Node::free_page,TxFreelist::free,Node::insert_child bound="three-level tree (root, 2 inner branches, 4 leaves of 2 entries), concrete keys (one execution, all checks on); leaf 6 left with one entry; one run of merge_nodes" unwind=6
+// @ob props=C01,C05 tier=parked cap=3000 mem=12 fns=InnerBucket::merge_nodes,InnerBucket::node,Node::from_page,Node::needs_merging,NodeData::merge,Node::free_page,TxFreelist::free,Node::insert_child bound="three-level tree (root, 2 inner branches, 4 leaves of 2 entries), concrete keys (one execution, all checks on); leaf 6 left with one entry; one run of merge_nodes" unwind=6
 #[kani::proof]
 #[kani::unwind(6)]
 fn bucket_merge_three_levels_concrete() {
     merge_three_level_case(false);
+}
+
+/// mirror image: the transaction removed one entry of leaf 8, the FIRST leaf of the root's SECOND inner branch 5:
+/// leaf 8 folds RIGHT into leaf 9, inner 5 (one branch left) folds LEFT into inner 4, the root collapses onto 4.
+/// Leaf 9 now starts with a smaller key than the separator it is known by; until the spill corrects it, lookups
+/// (InnerBucket::spill's put_leaf of every touched nested bucket runs BEFORE the node tree is spilled) must still
+/// find the moved entry.
+fn merge_three_level_right_then_left() {
+    crate::cursor::jv::word_stores(true);
+    let k: [[u8; 2]; 8] = [[1, 0], [2, 0], [3, 0], [4, 0], [5, 0], [6, 0], [7, 0], [8, 0]];
+    put_leaf_page(6, 0, &[Ent { t: 0, k: &k[0], v: &[7] }, Ent { t: 0, k: &k[1], v: &[7] }]);
+    put_leaf_page(7, 0, &[Ent { t: 0, k: &k[2], v: &[7] }, Ent { t: 0, k: &k[3], v: &[7] }]);
+    put_leaf_page(8, 0, &[Ent { t: 0, k: &k[4], v: &[7] }, Ent { t: 0, k: &k[5], v: &[7] }]);
+    put_leaf_page(9, 0, &[Ent { t: 0, k: &k[6], v: &[7] }, Ent { t: 0, k: &k[7], v: &[7] }]);
+    put_branch_page(4, 0, &[(&k[0], 6), (&k[2], 7)]);
+    put_branch_page(5, 0, &[(&k[4], 8), (&k[6], 9)]);
+    put_branch_page(3, 0, &[(&k[0], 4), (&k[4], 5)]);
+    let b = mk_bucket(3, true);
+    let mut ib = b.inner.borrow_mut();
+    ib.page_parents.insert(8, 5);
+    ib.page_parents.insert(5, 3);
+    {
+        let n = ib.node(PageNodeID::Page(8), None);
+        let mut n = n.borrow_mut();
+        std::mem::forget(n.delete(1));
+    }
+    ib.dirty = true;
+    let mut fl = b.freelist.borrow_mut();
+    ib.merge_nodes(&mut fl);
+    assert!(ib.meta.root_page == 4, "the surviving inner branch becomes the root");
+    assert!(ib.nodes.len() == 5);
+    {
+        let leaf9 = ib.nodes[3].borrow();
+        let inner4 = ib.nodes[4].borrow();
+        assert!(!leaf9.deleted && leaf9.page_id == 9 && leaf_is(&leaf9, &[k[4], k[6], k[7]]), "leaf 9 took the entry left in leaf 8");
+        assert!(!inner4.deleted && inner4.page_id == 4 && inner4.children.len() == 1 && inner4.children[0] == 3 && leaf9.parent == Some(4));
+        match &inner4.data {
+            NodeData::Branches(br) => assert!(br.len() == 3 && br[0].page == 6 && br[1].page == 7 && br[2].page == 9),
+            _ => assert!(false),
+        }
+    }
+    let p = crate::freelist::jv::pending_of(&fl.inner, 7);
+    assert!(p.is_some());
+    if let Some(p) = p {
+        assert!(p.len() == 3 && pending_has_once(p, 8) && pending_has_once(p, 5) && pending_has_once(p, 3));
+    }
+    std::mem::forget(fl);
+    // the moved entry is still found by a lookup from the (new) root
+    let root = ib.meta.root_page;
+    let (exists, stack) = search(&k[4][..], root, &mut ib);
+    assert!(exists, "JV-C05-STALE-SEPARATOR: after the rebalance a lookup of a moved entry descends by a stale separator and misses it");
+    std::mem::forget(stack);
+    std::mem::forget(ib);
+}
+// @ob props=C05,C01 tier=parked cap=3000 mem=12 fns=InnerBucket::merge_nodes,InnerBucket::node,Node::from_page,NodeData::merge,search,PageNode::index,InnerBucket::page_node bound="three-level tree (root, 2 inner branches, 4 leaves of 2 entries), concrete keys (one execution, all checks on); leaf 8 (first leaf of the second inner branch) left with one entry; one run of merge_nodes, then a lookup of the moved key" unwind=6
+#[kani::proof]
+#[kani::unwind(6)]
+fn bucket_merge_three_levels_right_then_left() {
+    merge_three_level_right_then_left();
+}
+
+/// every entry below the root's second inner branch 5 is deleted in one transaction (both of its leaves emptied):
+/// the whole inner branch has to go; no EMPTY node may stay attached below the root (Node::spill sorts a node's
+/// children by their first key: an empty child makes the commit panic)
+fn merge_three_level_emptied_inner() {
+    crate::cursor::jv::word_stores(true);
+    let k: [[u8; 2]; 8] = [[1, 0], [2, 0], [3, 0], [4, 0], [5, 0], [6, 0], [7, 0], [8, 0]];
+    put_leaf_page(6, 0, &[Ent { t: 0, k: &k[0], v: &[7] }, Ent { t: 0, k: &k[1], v: &[7] }]);
+    put_leaf_page(7, 0, &[Ent { t: 0, k: &k[2], v: &[7] }, Ent { t: 0, k: &k[3], v: &[7] }]);
+    put_leaf_page(8, 0, &[Ent { t: 0, k: &k[4], v: &[7] }, Ent { t: 0, k: &k[5], v: &[7] }]);
+    put_leaf_page(9, 0, &[Ent { t: 0, k: &k[6], v: &[7] }, Ent { t: 0, k: &k[7], v: &[7] }]);
+    put_branch_page(4, 0, &[(&k[0], 6), (&k[2], 7)]);
+    put_branch_page(5, 0, &[(&k[4], 8), (&k[6], 9)]);
+    put_branch_page(3, 0, &[(&k[0], 4), (&k[4], 5)]);
+    let b = mk_bucket(3, true);
+    let mut ib = b.inner.borrow_mut();
+    ib.page_parents.insert(8, 5);
+    ib.page_parents.insert(9, 5);
+    ib.page_parents.insert(5, 3);
+    {
+        let n = ib.node(PageNodeID::Page(8), None);
+        let mut n = n.borrow_mut();
+        std::mem::forget(n.delete(1));
+        std::mem::forget(n.delete(0));
+    }
+    {
+        let n = ib.node(PageNodeID::Page(9), None);
+        let mut n = n.borrow_mut();
+        std::mem::forget(n.delete(1));
+        std::mem::forget(n.delete(0));
+    }
+    ib.dirty = true;
+    assert!(ib.nodes.len() == 4, "leaf 8, inner 5, root 3 and leaf 9 are materialised");
+    let mut fl = b.freelist.borrow_mut();
+    ib.merge_nodes(&mut fl);
+    assert!(ib.meta.root_page == 4, "the untouched inner branch 4 becomes the root");
+    let mut i = 0;
+    while i < 6 {
+        if i < ib.nodes.len() {
+            let n = ib.nodes[i].borrow();
+            assert!(n.deleted || n.data.len() > 0 || n.page_id == ib.meta.root_page, "JV-C01-EMPTY-NODE: no empty node stays attached below the root after the rebalance");
+        }
+        i += 1;
+    }
+    let p = crate::freelist::jv::pending_of(&fl.inner, 7);
+    assert!(p.is_some());
+    if let Some(p) = p {
+        assert!(p.len() == 4 && pending_has_once(p, 8) && pending_has_once(p, 9) && pending_has_once(p, 5) && pending_has_once(p, 3), "JV-C05-MERGE-FREE: both emptied leaves, their inner branch and the old root are freed exactly once");
+    }
+    std::mem::forget(fl);
+    std::mem::forget(ib);
+}
+// @ob props=C01,C05 tier=parked cap=3000 mem=12 fns=InnerBucket::merge_nodes,InnerBucket::node,Node::from_page,Node::needs_merging,Node::free_page,TxFreelist::free bound="three-level tree (root, 2 inner branches, 4 leaves of 2 entries), concrete keys (one execution, all checks on); both leaves of the second inner branch emptied; one run of merge_nodes" unwind=7
+#[kani::proof]
+#[kani::unwind(7)]
+fn bucket_merge_three_levels_emptied_inner() {
+    merge_three_level_emptied_inner();
+}
+
+// ---- C05-Ob6: a nested bucket is deleted and THEN its ancestor, in one transaction: the ancestor's walk goes over
+//      the committed pages, where the nested bucket is still listed; its pages must not be given back a second time
+//      (a page twice in the pending list is twice in the committed free list, and DB::check rejects the file)
+// @ob props=C05,C10,C06 tier=quick cap=700 mem=8 fns=InnerBucket::delete_bucket,InnerBucket::get_bucket,InnerBucket::bucket_getter,TxFreelist::free,Freelist::free,Page::leaf_elements,search,InnerBucket::node,Node::delete bound="concrete tree (one execution): root leaf 3 with bucket entry P (root 4); leaf 4 with bucket entry C (root 5) and one key/value pair; leaf 5 with one pair, overflow 1; delete C through P's handle, then P; tx id 7; BucketMeta decoding by its proven contract (stub)" unwind=8
+#[kani::proof]
+#[kani::stub(<crate::bucket::BucketMeta as std::convert::From<&[u8]>>::from, crate::jv_top_stubs::bucket_meta_from_le)]
+#[kani::unwind(8)]
+fn bucket_delete_nested_then_ancestor_frees_once() {
+    static P: [u8; 1] = [b'p'];
+    static C: [u8; 1] = [b'c'];
+    let pv = bucket_value(4, 1);
+    let cv = bucket_value(5, 0);
+    put_leaf_page(3, 0, &[Ent { t: 1, k: &P, v: &pv }]);
+    put_leaf_page(4, 0, &[Ent { t: 1, k: &C, v: &cv }, Ent { t: 0, k: &[b'x'], v: &[1] }]);
+    put_leaf_page(5, 1, &[Ent { t: 0, k: &[b'k'], v: &[2] }]);
+    let b = mk_bucket(3, true);
+    let p = b.get_bucket(P);
+    assert!(p.is_ok());
+    if let Ok(p) = &p {
+        let r = p.delete_bucket(C);
+        assert!(r.is_ok());
+        std::mem::forget(r);
+    }
+    std::mem::forget(p);
+    let r = b.delete_bucket(P);
+    assert!(r.is_ok());
+    std::mem::forget(r);
+    let tf = b.freelist.borrow();
+    let pend = crate::freelist::jv::pending_of(&tf.inner, 7);
+    assert!(pend.is_some());
+    if let Some(pend) = pend {
+        assert!(pending_has_once(pend, 4) && pending_has_once(pend, 5) && pending_has_once(pend, 6), "JV-C05-DOUBLE-FREE: every page of the deleted subtree is given back exactly once");
+        assert!(pend.len() == 3, "JV-C05-DOUBLE-FREE: nothing is given back twice");
+    }
+    std::mem::forget(tf);
+    std::mem::forget(b);
 }
